@@ -76,6 +76,10 @@ func (w *Worker) lookupStub(fn *ssa.Function) stubFn {
 				panic(unsupported{"verifrt." + fn.Name() + " has no engine implementation"})
 			}
 		}
+	} else if isReflectFunc(fn) && !reflectFromSource[name] && fn.Name() != "init" && !strings.HasPrefix(fn.Name(), "init#") {
+		st = func(fr *frame, args []value) value {
+			panic(unsupported{"reflect model: " + name + " is not modelled"})
+		}
 	} else if zeroFuncs[name] || isZeroPkg(fn) {
 		res := fn.Signature.Results()
 		st = func(fr *frame, args []value) value {
